@@ -357,7 +357,7 @@ def name_rejection(case, r, run, v):
             for w in v["missing"]:
                 c = label[w]
                 if fam == "rl" and w in again:
-                    c = "figure caption of an image laid out before (repeated use / table cell)"
+                    c += " (image laid out before: repeated use / table cell)"
                 by.setdefault(c, []).append(w)
             for c, ws in sorted(by.items()):
                 out.append(("%s missing word in %s | %s" % (fam, c, kind),
@@ -404,6 +404,39 @@ def boundary_pairs(case):
         if flat and flat[-1]["b"] == "fig":
             fig_last = True
     return sec_pairs, fig_pairs, fig_last
+
+
+RUN_KINDS = ("fig", "gallery", "table")
+FOLLOWERS = ("end", "head", "table", "gallery", "pre", "para", "list")
+
+
+def block_runs(case):
+    """maximal runs of consecutive figures / galleries / tables:
+    (run kind, length, preceder kind or 'start', follower kind or 'end', float kinds of a figure run)"""
+    out = []
+    for art in case["arts"]:
+        flat = []
+        for b in art:
+            if b["b"] == "sec":
+                flat.append({"b": "head"})
+                flat.append({"b": "para"})
+            else:
+                flat.append(b)
+        k = 0
+        while k < len(flat):
+            kind = flat[k]["b"]
+            if kind not in RUN_KINDS:
+                k += 1
+                continue
+            j = k
+            while j < len(flat) and flat[j]["b"] == kind:
+                j += 1
+            mix = tuple(b["x"]["k"] for b in flat[k:j]) if kind == "fig" else ()
+            tpl = kind == "fig" and any(b["x"].get("tp") for b in flat[k:j])
+            same = kind == "fig" and j - k > 1 and len({b["x"]["i"] for b in flat[k:j]}) == 1
+            out.append((kind, j - k, flat[k - 1]["b"] if k else "start", flat[j]["b"] if j < len(flat) else "end", mix, tpl, same))
+            k = j
+    return out
 
 
 def features(case):
@@ -465,15 +498,17 @@ def run(ctx):
     if quick:
         plans = [("one_full", dict(maxarts=1, maxblocks=1, palette="full", chapters=False)),
                  ("one_pairs", dict(maxarts=1, maxblocks=1, palette="pairs", chapters=False)),
+                 ("one_runs3", dict(maxarts=1, maxblocks=1, palette="runs3", chapters=False)),
                  ("two_mini", dict(maxarts=2, maxblocks=1, palette="mini", chapters=True))]
-        nsim, maxblocks = 128, 4
+        nsim, maxblocks, maxrun = 112, 4, 3
     else:
         plans = [("one_full", dict(maxarts=1, maxblocks=1, palette="full", chapters=False)),
                  ("one_pairsall", dict(maxarts=1, maxblocks=1, palette="pairsall", chapters=False)),
+                 ("one_runs5all", dict(maxarts=1, maxblocks=1, palette="runs5all", chapters=False)),
                  ("one_core2", dict(maxarts=1, maxblocks=2, minblocks=2, palette="core", chapters=False)),
                  ("two_core", dict(maxarts=2, maxblocks=1, palette="core", chapters=True)),
                  ("three_mini", dict(maxarts=3, maxblocks=1, palette="mini", chapters=True))]
-        nsim, maxblocks = 3200, 5
+        nsim, maxblocks, maxrun = 3200, 5, 5
     lap("RenderPipeline model-checked")
     cases, states, trans = enumerate_cases(ctx, plans)
     n_exh = len(cases)
@@ -520,6 +555,23 @@ def run(ctx):
     want = {(a, b) for a in BASE_KINDS for b in BASE_KINDS}
     if want - base_exh:
         ctx.machinery("section-boundary pairs never enumerated in the exhaustive part: %s" % sorted(want - base_exh))
+    # ---- coverage of runs: every (run kind, length <= maxrun, follower) must be in the exhaustive part
+    runcov, runcov_all, precs, figmixes, tplcap, sameimg = set(), set(), set(), set(), 0, 0
+    for c in caselist:
+        exh = c.get("origin", "").startswith("bfs:")
+        for kind, n, prec, fol, mix, tpl, same in block_runs(c):
+            runcov_all.add((kind, n, fol))
+            if exh:
+                runcov.add((kind, n, fol))
+                precs.add((kind, prec))
+            if len(mix) > 1:
+                figmixes.add(mix)
+            tplcap += bool(tpl)
+            sameimg += bool(same)
+    want_runs = {(k, n, f) for k in RUN_KINDS for n in range(1, maxrun + 1) for f in FOLLOWERS if f != k}
+    if want_runs - runcov:
+        ctx.machinery("runs of consecutive blocks never enumerated in the exhaustive part (kind, length, follower): %s"
+                      % sorted(want_runs - runcov))
     # ---- evidence
     feats = [features(c) for c in caselist]
     count = lambda k: sum(1 for f in feats if f[k])                         # noqa: E731
@@ -537,6 +589,11 @@ def run(ctx):
         section_boundary_pairs_exhaustive=len(base_exh & want), section_boundary_pairs_possible=len(want),
         section_boundary_pairs_all=len(base_all & want), section_boundary_pairs_refined=sorted("%s|%s" % p for p in refined),
         adjacent_figure_pairs=sorted("%s|%s" % p for p in figpairs), collections_ending_with_figure=figlast,
+        run_length_follower_exhaustive={k: sorted("%d|%s" % (n, f) for kk, n, f in runcov if kk == k) for k in RUN_KINDS},
+        run_length_follower_required=len(want_runs), run_length_follower_covered=len(want_runs & runcov),
+        run_max_length_exhaustive=maxrun, run_length_follower_all=len(runcov_all),
+        run_preceders_exhaustive=sorted("%s|%s" % p for p in precs), figure_run_float_mixes=len(figmixes),
+        figure_runs_with_template_caption=tplcap, figure_runs_on_one_image=sameimg,
         odf_words_in_verdict=ODF_WORDS_IN_VERDICT, odf_words_not_in_content_xml_by_construct=odf_lost,
         rule="collections generated by spec/Collection.tla: exhaustive BFS for %s plus -simulate (rich palette, up to 4 articles x %d "
              "blocks, chapters); evaluations = recorded writer runs (5 render paths) validated by TLC against RenderPipeline; "
